@@ -272,6 +272,39 @@ def tick_task(ctx):
     ctx.discharge(obls, cap=ctx.cap(120, 600))
 
 
+def fees_task(ctx):
+    """SDK swap-fee helpers vs the program's per-step formulas (compute_swap): net-of-fee budget = floor(a*(1e6-f)/1e6); fee on a curve input = ceil(a*f/(1e6-f))"""
+    T.reset()
+    e = M.Engine(sdk_mir(ctx))
+    install_ethnum(e)
+    obls = []
+    a = T.var('amount', 0, 2**64 - 1); f = T.var('fee_rate', 0, 100000)
+    MIL = C(1000000)
+    for path, r in e.run('math::token::try_apply_swap_fee', [I(a, 'u64'), I(f, 'u32')], Path()):
+        kind, val = sdk_kind(r)
+        if kind == 'Ok':
+            o = M.Obligation(f'sdk:try_apply_swap_fee:equals_program_budget:{len(obls)}', path.pc, T.cmp('=', val, T.div(T.mul(a, T.sub(MIL, f)), MIL)))
+        else:
+            o = M.Obligation(f'sdk:try_apply_swap_fee:never_fails:{kind}:{len(obls)}', path.pc, FALSE, note='the program computes this budget without error for every u64 amount and fee rate <= 100000')
+        o.replay = None; obls.append(o)
+    for path, r in e.run('math::token::try_reverse_apply_swap_fee', [I(a, 'u64'), I(f, 'u32')], Path()):
+        kind, val = sdk_kind(r)
+        N, D = T.mul(a, f), T.sub(MIL, f)
+        # program fee = ceil(a*f/(1e6-f)) : x*D >= N and (x-1)*D < N
+        if kind == 'Ok':
+            x = T.sub(val, a)
+            goal = T.and_(T.cmp('>=', T.mul(x, D), N), T.or_(T.cmp('=', x, C(0)), T.cmp('<', T.mul(T.sub(x, C(1)), D), N)))
+            o = M.Obligation(f'sdk:try_reverse_apply_swap_fee:minus_amount_equals_program_fee:{len(obls)}', path.pc, goal,
+                             note='pre_fee_amount - amount_in is the program\'s fee ceil(amount_in*rate/(1e6-rate))')
+        else:
+            # the SDK may only fail when amount_in + program fee does not fit u64 (the program's swap loop then fails with AmountCalcOverflow)
+            q = T.div(T.add(N, T.sub(D, C(1))), D)
+            o = M.Obligation(f'sdk:try_reverse_apply_swap_fee:fails_only_when_input_plus_fee_exceeds_u64:{kind}:{len(obls)}', path.pc, T.cmp('>', T.add(a, q), C(2**64 - 1)))
+        o.replay = None; obls.append(o)
+    ctx.functions.update(e.executed)
+    ctx.discharge(obls)
+
+
 def tasks():
     def delta_args(fb):
         p0 = T.var('p0', MINP, MAXP); p1 = T.var('p1', MINP, MAXP); L = T.var('L', 0, 2**128 - 1)
@@ -285,6 +318,7 @@ def tasks():
         ('sdk:next_a', leaf_task('math::token::try_get_next_sqrt_price_from_a', SP.spec_next_price_from_a, price_args, 'Ok', ('get_next_sqrt_price_from_a_round_up', 'try_get_next_sqrt_price_from_a'), True)),
         ('sdk:next_b', leaf_task('math::token::try_get_next_sqrt_price_from_b', SP.spec_next_price_from_b, price_args, 'Ok', ('get_next_sqrt_price_from_b_round_down', 'try_get_next_sqrt_price_from_b'), True)),
         ('sdk:tick', tick_task),
+        ('sdk:fees', fees_task),
     ]
 
 
